@@ -20,7 +20,8 @@ RULE = ("[strata added in the build: commuted operand pairs for all 11 operators
         "output mode / copy flag, folded anonymous constants consumed by every consumer kind, fan-out 2-30) and, "
         "for memory cells and latches, through the same held-step histories. All named outputs (by name; "
         "compiler-chosen signals by value) and all entity conditions must be identical, and the optimised build "
-        "must also match the reference semantics. Non-trivial: some compared output non-zero.")
+        "is also run against the reference semantics (a deviation that the unoptimised build shares is recorded as "
+        "common_deviation and left to C01 / C02, it is not an optimiser difference). Non-trivial: some compared output non-zero.")
 ASSUMPTIONS = [
     "circuit model fverif/fsim.py",
     "both builds use the same first(seed) solver schedule; layouts differ, which is part of what must not matter",
@@ -324,7 +325,21 @@ def run_case(case):
         vals = gen.valuations(case["prog"], case["nval"], random.Random(case["vseed"]), small=case.get("small", False),
                               edges=case.get("edges"))
         chests = C06.chests_fn(case, vals, rng)
-        return sem.run_twin_case(case, case["prog"], {"optimize": True}, case["prog"], {"optimize": False},
-                                 vals=vals, chests=chests, label_a="optimize", label_b="no-optimize", strict_names="lost")
-    return sem.run_twin_case(case, case["prog"], {"optimize": True}, case["prog"], {"optimize": False},
-                             label_a="optimize", label_b="no-optimize", strict_names="lost")
+        return _twin(case, vals=vals, chests=chests)
+    return _twin(case)
+
+
+def _twin(case, **kw):
+    res = sem.run_twin_case(case, case["prog"], {"optimize": True}, case["prog"], {"optimize": False},
+                            label_a="optimize", label_b="no-optimize", strict_names="lost", **kw)
+    if res.get("verdict") == "violated" and (res.get("witness") or {}).get("oracle") == "reference":
+        # the optimised build deviates from the reference semantics; if the unoptimised build deviates in the same
+        # way the optimiser changed nothing (C01 / C02 decide such programs): finish the twin comparison alone
+        note = "both builds deviate identically from the reference semantics: %s" % res.get("why", "")[:200]
+        res2 = sem.run_twin_case(case, case["prog"], {"optimize": True}, case["prog"], {"optimize": False},
+                                 label_a="optimize", label_b="no-optimize", strict_names="lost", reference=False, **kw)
+        if res2.get("verdict") == "held":
+            res2["common_deviation"] = note
+            return res2
+        return res2 if res2.get("verdict") == "violated" else res
+    return res
